@@ -134,6 +134,13 @@ def apply_fn_sections(s, fnsec, item_lo, item_hi, log, copies, skip=frozenset())
         ext = Section('attr', '', fnsec.lineno, fnsec.src)
         ext.body = ['#[verifier::external_body] // AUTO-ISOLATED: outside the verifiable subset on this tree']
         subs = subs + [ext]
+        if ('!' + name) in skip:
+            # second level: even rustc rejects the body in the instantiated unit (a type the instantiation rules do not
+            # cover): the body is dropped as well, only the assumed contract stays
+            m1 = code_mask(s)
+            st1, ls1, bo1, bc1 = fn_span(s, m1, name, item_lo, item_hi())
+            if bo1 != bc1:
+                s = s[:bo1] + '{ unimplemented!() /* AUTO-ISOLATED: body dropped */ }' + s[bc1 + 1:]
     for sub in subs:
         m = code_mask(s)
         # item may have grown; recompute its end by matching from item_lo's brace
